@@ -1,5 +1,536 @@
 import QModel.Core
-/-! C04 — model (not built yet) -/
-namespace QM.C04
-def handle (_args : List String) : Option String := none
-end QM.C04
+/-!
+# C04 — equality / inequality projections (model of `calc_proj_eq_constraint(_with_var)`,
+`calc_proj_ineq_constraint(_with_var)` of State / Povm / Gate / MProcess and of the
+`func_calc_proj_*` closures of quara/objects/qoperation.py)
+
+Conventions.
+* `R` is the real scalar type (executed: `Rat`), `K` the complex one (executed: `Cx Rat`); the link is
+  the import-free class `CxLike R K` (`ofReal`, `conj`, `re`, `im`).
+* `n = d²` is the number of basis elements; a state is `Vec R n`, a POVM `Mat R m n` (row = element),
+  a gate `Mat R n n` (HS matrix), a measurement process `Ten R m n n`.
+* numpy `reshape`/`flatten`/`hstack` between a flat variable vector and these shapes is row-major
+  re-indexing (property C03); it is done by the driver's parser, except where the code itself does
+  flat index arithmetic (`Gate.calc_proj_eq_constraint_with_var`: `new_var[1:dim**2] = 0`), which is
+  modelled on the flat vector.
+* External kernels are parameters: `s = 1/np.sqrt(d)`, `t = np.sqrt(d)` (floats, passed as rationals),
+  the basis matrices, and the result `(lam, U)` of `np.linalg.eigh`.
+* `eps` is the effective `eps_truncate_imaginary_part` (`Settings.get_atol()` when `None`).
+-/
+namespace QM
+
+abbrev Ten (K : Type) (m n p : Nat) := Vector (Mat K n p) m
+namespace Ten
+variable {K : Type} {m n p : Nat}
+@[inline] def ofFn (f : Fin m → Fin n → Fin p → K) : Ten K m n p :=
+  Vector.ofFn fun x => Mat.ofFn (f x)
+@[inline] def get (T : Ten K m n p) (x : Fin m) (a : Fin n) (b : Fin p) : K := (T[x]).get a b
+end Ten
+
+namespace C04
+
+theorem pos_of_lt_mul {k a b : Nat} (h : k < a * b) : 0 < b := by
+  rcases Nat.eq_zero_or_pos b with h0 | h0
+  · rw [h0, Nat.mul_zero] at h; omega
+  · exact h0
+
+/-! ## scalars -/
+
+structure Cx (R : Type) where
+  re : R
+  im : R
+deriving DecidableEq, Repr
+
+namespace Cx
+variable {R : Type}
+instance [Add R] : Add (Cx R) := ⟨fun a b => ⟨a.re + b.re, a.im + b.im⟩⟩
+instance [Sub R] : Sub (Cx R) := ⟨fun a b => ⟨a.re - b.re, a.im - b.im⟩⟩
+instance [Neg R] : Neg (Cx R) := ⟨fun a => ⟨-a.re, -a.im⟩⟩
+instance [Add R] [Sub R] [Mul R] : Mul (Cx R) :=
+  ⟨fun a b => ⟨a.re * b.re - a.im * b.im, a.re * b.im + a.im * b.re⟩⟩
+instance [Zero R] : Zero (Cx R) := ⟨⟨0, 0⟩⟩
+instance [Zero R] [One R] : One (Cx R) := ⟨⟨1, 0⟩⟩
+end Cx
+
+/-- what the model needs to know about the complex scalars -/
+class CxLike (R : outParam Type) (K : Type) where
+  ofReal : R → K
+  conj : K → K
+  re : K → R
+  im : K → R
+
+instance {R : Type} [Zero R] [Neg R] : CxLike R (Cx R) :=
+  ⟨fun r => ⟨r, 0⟩, fun z => ⟨z.re, -z.im⟩, Cx.re, Cx.im⟩
+
+section real
+variable {R : Type} [Add R] [Sub R] [Mul R] [Div R] [Neg R] [Zero R] [One R] [NatCast R]
+variable {m n : Nat}
+
+/-- first unit vector `np.eye(1, n)` / `one[0] = 1` -/
+def e0 (i : Fin n) : R := if i.val = 0 then 1 else 0
+
+/-! ## State -/
+namespace State
+
+/-- `vec = deepcopy(self.vec); vec[0] = 1/np.sqrt(dim)` -/
+def projEq (s : R) (vec : Vec R n) : Vec R n :=
+  Vec.ofFn fun i => if i.val = 0 then s else vec.get i
+
+/-- `calc_proj_eq_constraint_with_var`: with the flag the variable is returned as it is -/
+def projEqVar (s : R) (flag : Bool) (var : Vec R n) : Vec R n :=
+  if flag then var else Vec.ofFn fun i => if i.val = 0 then s else var.get i
+
+/-- `convert_var_to_vec(…, True)`: `np.insert(var, 0, 1/np.sqrt(dim))` -/
+def ofVarT (s : R) (var : Vec R n) : Vec R (n + 1) :=
+  Vec.ofFn fun i => if h : i.val = 0 then s else var.get ⟨i.val - 1, by omega⟩
+
+/-- `convert_vec_to_var(…, True)`: `np.delete(vec, 0)` -/
+def toVarT (vec : Vec R (n + 1)) : Vec R n :=
+  Vec.ofFn fun i => vec.get ⟨i.val + 1, by omega⟩
+
+/-- `func_calc_proj_eq_constraint(True)`: generate_from_var → calc_proj_eq_constraint → to_var -/
+def funcProjEqT (s : R) (var : Vec R n) : Vec R n := toVarT (projEq s (ofVarT s var))
+/-- `func_calc_proj_eq_constraint(False)` -/
+def funcProjEqF (s : R) (var : Vec R n) : Vec R n := projEq s var
+
+end State
+
+/-! ## Povm -/
+namespace Povm
+
+/-- `a_bar = np.sum(vecs, axis=0)/m`, `c = [√d/m,0,…]`, `new_vec = vec - a_bar + c` -/
+def projEq (t : R) (vecs : Mat R m n) : Mat R m n :=
+  let abar : Vec R n := Vec.ofFn fun i => (fsum m fun x => vecs.get x i) / (m : R)
+  let c : Vec R n := Vec.ofFn fun i => if i.val = 0 then t / (m : R) else 0
+  Mat.ofFn fun x i => (vecs.get x i - abar.get i) + c.get i
+
+/-- `convert_var_to_vecs(…, True)`: the last element is `[√d,0,…] − Σ pre` -/
+def ofVarT (t : R) (pre : Mat R m n) : Mat R (m + 1) n :=
+  let last : Vec R n := Vec.ofFn fun i => (if i.val = 0 then t else 0) - fsum m fun x => pre.get x i
+  Mat.ofFn fun x i => if h : x.val < m then pre.get ⟨x.val, h⟩ i else last.get i
+
+/-- `convert_vecs_to_var(…, True)`: `del var[-1]` -/
+def toVarT (vecs : Mat R (m + 1) n) : Mat R m n :=
+  Mat.ofFn fun x i => vecs.get ⟨x.val, by omega⟩ i
+
+/-- `calc_proj_eq_constraint_with_var(…, True)` and `func_calc_proj_eq_constraint(True)` -/
+def projEqVarT (t : R) (pre : Mat R m n) : Mat R m n := toVarT (projEq t (ofVarT t pre))
+/-- `calc_proj_eq_constraint_with_var(…, False)` and `func_calc_proj_eq_constraint(False)` -/
+def projEqVarF (t : R) (vecs : Mat R m n) : Mat R m n := projEq t vecs
+
+end Povm
+
+/-! ## Gate -/
+namespace Gate
+
+/-- `hs[0][0] = 1; hs[0][1:] = 0` -/
+def projEq (hs : Mat R n n) : Mat R n n :=
+  Mat.ofFn fun a b => if a.val = 0 then (if b.val = 0 then 1 else 0) else hs.get a b
+
+/-- `calc_proj_eq_constraint_with_var` on the flat variable vector:
+`new_var[0] = 1; new_var[1 : dim**2] = 0` (flag False), the variable itself (flag True) -/
+def projEqVar {N : Nat} (n : Nat) (flag : Bool) (var : Vec R N) : Vec R N :=
+  if flag then var
+  else Vec.ofFn fun k => if k.val = 0 then 1 else if k.val < n then 0 else var.get k
+
+/-- `convert_var_to_hs(…, True)`: `np.insert(reshaped, 0, np.eye(1, n), axis=0)` -/
+def ofVarT (var : Mat R m n) : Mat R (m + 1) n :=
+  Mat.ofFn fun a b => if h : a.val = 0 then e0 b else var.get ⟨a.val - 1, by omega⟩ b
+
+/-- `convert_hs_to_var(…, True)`: `np.delete(hs, 0, axis=0)` -/
+def toVarT (hs : Mat R (m + 1) n) : Mat R m n :=
+  Mat.ofFn fun a b => hs.get ⟨a.val + 1, by omega⟩ b
+
+def funcProjEqT (var : Mat R n (n + 1)) : Mat R n (n + 1) := toVarT (projEq (ofVarT var))
+def funcProjEqF (hs : Mat R n n) : Mat R n n := projEq hs
+
+end Gate
+
+/-- row-major `flatten` -/
+def flatten {K : Type} {m n : Nat} (A : Mat K m n) : Vec K (m * n) :=
+  Vec.ofFn fun k =>
+    have hn : 0 < n := pos_of_lt_mul k.isLt
+    A.get ⟨k.val / n, (Nat.div_lt_iff_lt_mul hn).2 k.isLt⟩ ⟨k.val % n, Nat.mod_lt _ hn⟩
+
+/-! ## MProcess -/
+namespace MProcess
+
+/-- `vec = Σ_x hs_x[0]; vec[0] -= 1; hs_x[0] -= vec/len(hss)` -/
+def projEq (hss : Ten R m n n) : Ten R m n n :=
+  let vec : Vec R n := Vec.ofFn fun b =>
+    (fsum m fun x => fsum n fun a => if a.val = 0 then hss.get x a b else 0) - (if b.val = 0 then 1 else 0)
+  Ten.ofFn fun x a b => if a.val = 0 then hss.get x a b - vec.get b / (m : R) else hss.get x a b
+
+/-- `convert_var_to_hss(…, True)`: the first row of the last HS matrix is `e0 − Σ (first rows)`;
+`pre` are the complete matrices, `rest` the last one without its first row -/
+def ofVarT (pre : Ten R m (n + 1) (n + 1)) (rest : Mat R n (n + 1)) : Ten R (m + 1) (n + 1) (n + 1) :=
+  let first : Vec R (n + 1) := Vec.ofFn fun b => e0 b - fsum m fun x => pre.get x ⟨0, by omega⟩ b
+  Ten.ofFn fun x a b =>
+    if h : x.val < m then pre.get ⟨x.val, h⟩ a b
+    else if h0 : a.val = 0 then first.get b else rest.get ⟨a.val - 1, by omega⟩ b
+
+/-- `convert_hss_to_var(…, True)`: all matrices but the last complete, the last without row 0 -/
+def toVarT (hss : Ten R (m + 1) (n + 1) (n + 1)) : Ten R m (n + 1) (n + 1) × Mat R n (n + 1) :=
+  (Ten.ofFn fun x a b => hss.get ⟨x.val, by omega⟩ a b,
+   Mat.ofFn fun a b => hss.get ⟨m, by omega⟩ ⟨a.val + 1, by omega⟩ b)
+
+def projEqVarT (pre : Ten R m (n + 1) (n + 1)) (rest : Mat R n (n + 1)) :
+    Ten R m (n + 1) (n + 1) × Mat R n (n + 1) := toVarT (projEq (ofVarT pre rest))
+def projEqVarF (hss : Ten R m n n) : Ten R m n n := projEq hss
+
+/-- content of the CALLER's array after `calc_proj_eq_constraint_with_var(c_sys, var, False)`:
+`convert_var_to_hss(…, False)` returns `var.reshape(…)` *views* (`vector = var`, mprocess.py:1081) and the loop
+`hs[0] -= vec / len(hss)` writes through them, so the argument ends up holding the projected first rows
+(defect DESIGN §5-D5).  With the flag set `convert_var_to_hss` works on `copy.copy(var)` and the argument is untouched. -/
+def argAfterEqVarF (hss : Ten R m n n) : Ten R m n n := projEq hss
+
+end MProcess
+
+/-! ## squared Euclidean distances of stacked parameters (used by the theorems and by the driver) -/
+def sqd1 (u v : Vec R n) : R := fsum n fun i => (u.get i - v.get i) * (u.get i - v.get i)
+def sqd2 (u v : Mat R m n) : R :=
+  fsum m fun x => fsum n fun i => (u.get x i - v.get x i) * (u.get x i - v.get x i)
+def sqd3 {p : Nat} (u v : Ten R m n p) : R :=
+  fsum m fun x => fsum n fun a => fsum p fun b =>
+    (u.get x a b - v.get x a b) * (u.get x a b - v.get x a b)
+
+end real
+
+/-! ## inequality projections -/
+section cx
+variable {R K : Type} [Add R] [Sub R] [Mul R] [Neg R] [Zero R] [One R] [LT R]
+  [DecidableRel (α := R) (· < ·)] [DecidableEq R]
+  [Add K] [Sub K] [Mul K] [Zero K] [CxLike R K]
+variable {m n d : Nat}
+open CxLike
+
+/-- `diag[diag < 0] = 0` -/
+def pos (x : R) : R := if x < 0 then 0 else x
+
+def rabs (x : R) : R := if x < 0 then -x else x
+
+/-- `eigenvecs @ diag @ eigenvecs.T.conjugate()` with the clipped eigenvalues -/
+def clipMat (U : Mat K d d) (lam : Vec R d) : Mat K d d :=
+  Mat.ofFn fun i j => fsum d fun k => U.get i k * ofReal (pos (lam.get k)) * conj (U.get j k)
+
+/-- un-clipped reconstruction `U diag(lam) Uᴴ` (what `eigh` promises to equal its argument) -/
+def rebuild (U : Mat K d d) (lam : Vec R d) : Mat K d d :=
+  Mat.ofFn fun i j => fsum d fun k => U.get i k * ofReal (lam.get k) * conj (U.get j k)
+
+/-- `basis_T_sparse.dot(vec).reshape(d, d)` = Σ_α vec_α B_α -/
+def matOfVec (B : Vector (Mat K d d) n) (v : Vec R n) : Mat K d d :=
+  Mat.ofFn fun i j => fsum n fun a => ofReal (v.get a) * (B[a]).get i j
+
+/-- `basisconjugate_sparse.dot(flatten(M))`: α ↦ Σ_ij conj(B_α)_ij M_ij = tr(B_αᴴ M) -/
+def coeffs (B : Vector (Mat K d d) n) (M : Mat K d d) : Vec K n :=
+  Vec.ofFn fun a => fsum d fun i => fsum d fun j => conj ((B[a]).get i j) * M.get i j
+
+/-- rows of `basis_basisconjugate_tmp` (composite_system.py): `kron(B_α, conj B_β)`, index `α*n+β` -/
+def kronBasis (B : Vector (Mat K d d) n) : Vector (Mat K (d * d) (d * d)) (n * n) :=
+  Vector.ofFn fun c =>
+    have hn : 0 < n := pos_of_lt_mul c.isLt
+    let a : Fin n := ⟨c.val / n, (Nat.div_lt_iff_lt_mul hn).2 c.isLt⟩
+    let b : Fin n := ⟨c.val % n, Nat.mod_lt _ hn⟩
+    Mat.ofFn fun i j =>
+      have hd : 0 < d := pos_of_lt_mul i.isLt
+      (B[a]).get ⟨i.val / d, (Nat.div_lt_iff_lt_mul hd).2 i.isLt⟩ ⟨j.val / d, (Nat.div_lt_iff_lt_mul hd).2 j.isLt⟩ *
+        conj ((B[b]).get ⟨i.val % d, Nat.mod_lt _ hd⟩ ⟨j.val % d, Nat.mod_lt _ hd⟩)
+
+inductive Err
+  | imag   -- truncate_hs: "some imaginary parts of entries of matrix != 0"
+deriving DecidableEq, Repr
+
+/-- `mutil.truncate_hs(vec, eps)`:
+`truncate_imaginary_part` keeps the real part where `|im| < eps`; any remaining non-zero imaginary part
+raises; then real entries with `|x| < eps` become 0 (`truncate_computational_fluctuation`). -/
+def truncate (eps : R) (v : Vec K n) : Except Err (Vec R n) :=
+  if (List.finRange n).any (fun a => decide (¬ (rabs (im (v.get a)) < eps) ∧ im (v.get a) ≠ 0))
+  then .error .imag
+  else .ok (Vec.ofFn fun a => if rabs (re (v.get a)) < eps then 0 else re (v.get a))
+
+/-- squared Frobenius norm of a complex matrix, Σ |z|² -/
+def frob2 (M : Mat K d d) : R :=
+  fsum d fun i => fsum d fun j =>
+    re (M.get i j) * re (M.get i j) + im (M.get i j) * im (M.get i j)
+
+/-- common core of all `calc_proj_ineq_constraint*`: clipped reconstruction from the supplied eigh
+result, coefficients in the basis, truncation to a real vector -/
+def projIneqCore (B : Vector (Mat K d d) n) (eps : R) (lam : Vec R d) (U : Mat K d d) :
+    Except Err (Vec R n) :=
+  truncate eps (coeffs B (clipMat U lam))
+
+/-- deviation of the supplied eigh result from the matrix the code hands to `eigh` -/
+def eighResidual (M : Mat K d d) (lam : Vec R d) (U : Mat K d d) : R :=
+  frob2 (Mat.sub M (rebuild U lam))
+
+/-- `Uᴴ U − 1` -/
+def unitaryResidual [One K] (U : Mat K d d) : R :=
+  frob2 (Mat.ofFn fun i j => (fsum d fun k => conj (U.get k i) * U.get k j) - (if i = j then (1 : K) else 0))
+
+def seqV {α : Type} {m : Nat} (v : Vector (Except Err α) m) : Except Err (Vector α m) :=
+  v.mapM id
+
+namespace State
+/-- matrix handed to `np.linalg.eigh` (`to_density_matrix_with_sparsity`) -/
+def ineqInput (B : Vector (Mat K d d) n) (vec : Vec R n) : Mat K d d := matOfVec B vec
+/-- `calc_proj_ineq_constraint` / `…_with_var(…, False)` -/
+def projIneq (B : Vector (Mat K d d) n) (eps : R) (lam : Vec R d) (U : Mat K d d) :
+    Except Err (Vec R n) := projIneqCore B eps lam U
+/-- `calc_proj_ineq_constraint_with_var(…, True)`: `convert_vec_to_var` drops the first entry -/
+def projIneqVarT (B : Vector (Mat K d d) (n + 1)) (eps : R) (lam : Vec R d) (U : Mat K d d) :
+    Except Err (Vec R n) := (projIneqCore B eps lam U).map toVarT
+end State
+
+namespace Povm
+def ineqInput (B : Vector (Mat K d d) n) (vecs : Mat R m n) (x : Fin m) : Mat K d d :=
+  matOfVec B vecs[x]
+/-- element-wise clipping; `eig[x]` is the eigh result for element `x` -/
+def projIneq (B : Vector (Mat K d d) n) (eps : R) (eig : Vector (Vec R d × Mat K d d) m) :
+    Except Err (Mat R m n) :=
+  seqV (Vector.ofFn fun x => projIneqCore B eps eig[x].1 eig[x].2)
+/-- `…_with_var(…, True)`: all `m+1` elements are clipped, the last one is dropped -/
+def projIneqVarT (B : Vector (Mat K d d) n) (eps : R) (eig : Vector (Vec R d × Mat K d d) (m + 1)) :
+    Except Err (Mat R m n) := (projIneq B eps eig).map toVarT
+end Povm
+
+namespace Gate
+/-- Choi matrix handed to `eigh` (`to_choi_from_hs_with_sparsity`) -/
+def ineqInput (B : Vector (Mat K d d) n) (hs : Mat R n n) : Mat K (d * d) (d * d) :=
+  matOfVec (kronBasis B) (flatten hs)
+/-- `calc_proj_ineq_constraint` / `…_with_var(…, False)`; result is the flattened HS matrix -/
+def projIneq (B : Vector (Mat K d d) n) (eps : R) (lam : Vec R (d * d)) (U : Mat K (d * d) (d * d)) :
+    Except Err (Vec R (n * n)) := projIneqCore (kronBasis B) eps lam U
+/-- `np.delete(hs, 0, axis=0).flatten()` on the flat HS vector: drop the first `n` entries -/
+def dropRow0 {N : Nat} (n : Nat) (v : Vec R N) : Vec R (N - n) :=
+  Vec.ofFn fun k => v.get ⟨k.val + n, by omega⟩
+def projIneqVarT (B : Vector (Mat K d d) n) (eps : R) (lam : Vec R (d * d)) (U : Mat K (d * d) (d * d)) :
+    Except Err (Vec R (n * n - n)) := (projIneq B eps lam U).map (dropRow0 n)
+end Gate
+
+namespace MProcess
+def ineqInput (B : Vector (Mat K d d) n) (hss : Ten R m n n) (x : Fin m) : Mat K (d * d) (d * d) :=
+  Gate.ineqInput B hss[x]
+/-- per outcome `Gate.calc_proj_ineq_constraint_with_var(…, False)`; rows are flattened HS matrices -/
+def projIneq (B : Vector (Mat K d d) n) (eps : R)
+    (eig : Vector (Vec R (d * d) × Mat K (d * d) (d * d)) m) : Except Err (Mat R m (n * n)) :=
+  seqV (Vector.ofFn fun x => Gate.projIneq B eps eig[x].1 eig[x].2)
+/-- `…_with_var(…, True)`: as above, then `np.delete(proj_hs, np.s_[0:dim**2])` on the last outcome -/
+def projIneqVarT (B : Vector (Mat K d d) n) (eps : R)
+    (eig : Vector (Vec R (d * d) × Mat K (d * d) (d * d)) (m + 1)) :
+    Except Err (Mat R m (n * n) × Vec R (n * n - n)) :=
+  (projIneq B eps eig).map fun r =>
+    (Mat.ofFn fun x k => r.get ⟨x.val, by omega⟩ k, Gate.dropRow0 n r[m])
+end MProcess
+
+end cx
+
+/-! ## driver -/
+section driver
+
+def vecOf? {α : Type} (n : Nat) (l : List α) : Option (Vec α n) :=
+  if h : l.toArray.size = n then some ⟨l.toArray, h⟩ else none
+
+def matOf? {α : Type} (m n : Nat) (l : List α) : Option (Mat α m n) :=
+  if l.length = m * n then
+    (Vector.ofFn fun i : Fin m => vecOf? n ((l.drop (i.val * n)).take n)).mapM id
+  else none
+
+def tenOf? {α : Type} (m n p : Nat) (l : List α) : Option (Ten α m n p) :=
+  if l.length = m * (n * p) then
+    (Vector.ofFn fun i : Fin m => matOf? n p ((l.drop (i.val * (n * p))).take (n * p))).mapM id
+  else none
+
+def cxList : List Rat → Option (List (Cx Rat))
+  | [] => some []
+  | [_] => none
+  | a :: b :: r => (cxList r).map (⟨a, b⟩ :: ·)
+
+def matList {α : Type} {m n : Nat} (A : Mat α m n) : List α := A.toList.flatMap Vector.toList
+def tenList {α : Type} {m n p : Nat} (T : Ten α m n p) : List α := T.toList.flatMap matList
+
+def showV {n : Nat} (v : Vec Rat n) : String := showList showRat v.toList
+def showM {m n : Nat} (A : Mat Rat m n) : String := showList showRat (matList A)
+def showT {m n p : Nat} (T : Ten Rat m n p) : String := showList showRat (tenList T)
+
+def parseBool? (s : String) : Option Bool :=
+  if s = "T" then some true else if s = "F" then some false else none
+
+def rats? (s : String) : Option (List Rat) := parseList? parseRat? s
+def cxs? (s : String) : Option (List (Cx Rat)) := (rats? s).bind cxList
+
+/-- eigh results for `m` matrices of size `D`: `lams` flat `m*D`, `us` flat `m*D*D` complex -/
+def eigs? (m D : Nat) (lams : List Rat) (us : List (Cx Rat)) :
+    Option (Vector (Vec Rat D × Mat (Cx Rat) D D) m) := do
+  let L ← matOf? m D lams
+  let U ← tenOf? m D D us
+  pure (Vector.ofFn fun x => (L[x], U[x]))
+
+/-- residuals of the eigh contracts, summed over the outcomes -/
+def resid {m D : Nat} (inp : Fin m → Mat (Cx Rat) D D) (eig : Vector (Vec Rat D × Mat (Cx Rat) D D) m) :
+    Rat × Rat :=
+  (fsum m fun x => eighResidual (inp x) eig[x].1 eig[x].2, fsum m fun x => unitaryResidual eig[x].2)
+
+def showIneq (r : Except Err String) (res : Rat × Rat) : String :=
+  match r with
+  | .error .imag => "err imag"
+  | .ok s => s!"ok {s} {showRat res.1} {showRat res.2}"
+
+def handleEq (args : List String) : Option String :=
+  match args with
+  | ["s_eq_obj", s, vec] => do
+      let s ← parseRat? s; let l ← rats? vec
+      let v ← vecOf? l.length l
+      some s!"ok {showV (State.projEq s v)}"
+  | ["s_eq_var", flag, s, var] => do
+      let flag ← parseBool? flag; let s ← parseRat? s; let l ← rats? var
+      let v ← vecOf? l.length l
+      some s!"ok {showV (State.projEqVar s flag v)}"
+  | ["s_eq_func", flag, s, var] => do
+      let flag ← parseBool? flag; let s ← parseRat? s; let l ← rats? var
+      let v ← vecOf? l.length l
+      some s!"ok {showV (if flag then State.funcProjEqT s v else State.funcProjEqF s v)}"
+  | ["p_eq_obj", t, m, n, vecs] => do
+      let t ← parseRat? t; let m ← parseNat? m; let n ← parseNat? n
+      let A ← matOf? m n (← rats? vecs)
+      some s!"ok {showM (Povm.projEq t A)}"
+  | ["p_eq_var", flag, t, m, n, var] => do
+      let flag ← parseBool? flag; let t ← parseRat? t; let m ← parseNat? m; let n ← parseNat? n
+      let A ← matOf? m n (← rats? var)
+      some s!"ok {showM (if flag then Povm.projEqVarT t A else Povm.projEqVarF t A)}"
+  | ["g_eq_obj", n, hs] => do
+      let n ← parseNat? n
+      let A ← matOf? n n (← rats? hs)
+      some s!"ok {showM (Gate.projEq A)}"
+  | ["g_eq_var", flag, n, var] => do
+      let flag ← parseBool? flag; let n ← parseNat? n; let l ← rats? var
+      let v ← vecOf? l.length l
+      some s!"ok {showV (Gate.projEqVar n flag v)}"
+  | ["g_eq_func", flag, n, var] => do
+      let flag ← parseBool? flag; let n ← parseNat? n; let l ← rats? var
+      if flag then
+        match n with
+        | 0 => none
+        | n' + 1 => do
+          let A ← matOf? n' (n' + 1) l
+          some s!"ok {showM (Gate.funcProjEqT A)}"
+      else do
+        let A ← matOf? n n l
+        some s!"ok {showM (Gate.funcProjEqF A)}"
+  | ["m_eq_obj", m, n, hss] => do
+      let m ← parseNat? m; let n ← parseNat? n
+      let T ← tenOf? m n n (← rats? hss)
+      some s!"ok {showT (MProcess.projEq T)}"
+  | ["m_eq_var_after", m, n, var] => do
+      let m ← parseNat? m; let n ← parseNat? n
+      let T ← tenOf? m n n (← rats? var)
+      some s!"ok {showT (MProcess.argAfterEqVarF T)}"
+  | ["m_eq_var", flag, m, n, var] => do
+      let flag ← parseBool? flag; let m ← parseNat? m; let n ← parseNat? n; let l ← rats? var
+      if flag then
+        match m, n with
+        | m' + 1, n' + 1 => do
+          let k := m' * ((n' + 1) * (n' + 1))
+          let pre ← tenOf? m' (n' + 1) (n' + 1) (l.take k)
+          let rest ← matOf? n' (n' + 1) (l.drop k)
+          let r := MProcess.projEqVarT pre rest
+          some s!"ok {showList showRat (tenList r.1 ++ matList r.2)}"
+        | _, _ => none
+      else do
+        let T ← tenOf? m n n l
+        some s!"ok {showT (MProcess.projEqVarF T)}"
+  | _ => none
+
+def handleIneq (args : List String) : Option String :=
+  match args with
+  | ["s_ineq", flag, d, n, s, eps, basis, var, lam, u] => do
+      let flag ← parseBool? flag; let d ← parseNat? d; let n ← parseNat? n
+      let s ← parseRat? s; let eps ← parseRat? eps
+      let lam ← vecOf? d (← rats? lam); let U ← matOf? d d (← cxs? u)
+      let l ← rats? var
+      if flag then
+        match n with
+        | 0 => none
+        | n' + 1 => do
+          let B ← tenOf? (n' + 1) d d (← cxs? basis)
+          let v ← vecOf? n' l
+          let inp := State.ineqInput B (State.ofVarT s v)
+          some (showIneq ((State.projIneqVarT B eps lam U).map showV)
+            (eighResidual inp lam U, unitaryResidual U))
+      else do
+        let B ← tenOf? n d d (← cxs? basis)
+        let v ← vecOf? n l
+        let inp := State.ineqInput B v
+        some (showIneq ((State.projIneq B eps lam U).map showV)
+          (eighResidual inp lam U, unitaryResidual U))
+  | ["p_ineq", flag, d, n, m, t, eps, basis, var, lams, us] => do
+      -- `m` = number of POVM elements of the full object
+      let flag ← parseBool? flag; let d ← parseNat? d; let n ← parseNat? n; let m ← parseNat? m
+      let t ← parseRat? t; let eps ← parseRat? eps
+      let B ← tenOf? n d d (← cxs? basis)
+      let l ← rats? var
+      if flag then
+        match m with
+        | 0 => none
+        | m' + 1 => do
+          let eig ← eigs? (m' + 1) d (← rats? lams) (← cxs? us)
+          let pre ← matOf? m' n l
+          let vecs := Povm.ofVarT t pre
+          some (showIneq ((Povm.projIneqVarT B eps eig).map showM)
+            (resid (Povm.ineqInput B vecs) eig))
+      else do
+        let eig ← eigs? m d (← rats? lams) (← cxs? us)
+        let vecs ← matOf? m n l
+        some (showIneq ((Povm.projIneq B eps eig).map showM) (resid (Povm.ineqInput B vecs) eig))
+  | ["g_ineq", flag, d, n, eps, basis, var, lam, u] => do
+      let flag ← parseBool? flag; let d ← parseNat? d; let n ← parseNat? n
+      let eps ← parseRat? eps
+      let B ← tenOf? n d d (← cxs? basis)
+      let lam ← vecOf? (d * d) (← rats? lam); let U ← matOf? (d * d) (d * d) (← cxs? u)
+      let l ← rats? var
+      if flag then
+        match n with
+        | 0 => none
+        | n' + 1 => do
+          let B ← tenOf? (n' + 1) d d (← cxs? basis)
+          let v ← matOf? n' (n' + 1) l
+          let inp := Gate.ineqInput B (Gate.ofVarT v)
+          some (showIneq ((Gate.projIneqVarT B eps lam U).map showV)
+            (eighResidual inp lam U, unitaryResidual U))
+      else do
+        let hs ← matOf? n n l
+        let inp := Gate.ineqInput B hs
+        some (showIneq ((Gate.projIneq B eps lam U).map showV)
+          (eighResidual inp lam U, unitaryResidual U))
+  | ["m_ineq", flag, d, n, m, eps, basis, var, lams, us] => do
+      let flag ← parseBool? flag; let d ← parseNat? d; let n ← parseNat? n; let m ← parseNat? m
+      let eps ← parseRat? eps
+      let l ← rats? var
+      if flag then
+        match m, n with
+        | m' + 1, n' + 1 => do
+          let B ← tenOf? (n' + 1) d d (← cxs? basis)
+          let eig ← eigs? (m' + 1) (d * d) (← rats? lams) (← cxs? us)
+          let k := m' * ((n' + 1) * (n' + 1))
+          let pre ← tenOf? m' (n' + 1) (n' + 1) (l.take k)
+          let rest ← matOf? n' (n' + 1) (l.drop k)
+          let hss := MProcess.ofVarT pre rest
+          some (showIneq ((MProcess.projIneqVarT B eps eig).map fun r =>
+              showList showRat (matList r.1 ++ r.2.toList))
+            (resid (MProcess.ineqInput B hss) eig))
+        | _, _ => none
+      else do
+        let B ← tenOf? n d d (← cxs? basis)
+        let eig ← eigs? m (d * d) (← rats? lams) (← cxs? us)
+        let hss ← tenOf? m n n l
+        some (showIneq ((MProcess.projIneq B eps eig).map showM) (resid (MProcess.ineqInput B hss) eig))
+  | _ => none
+
+def handle (args : List String) : Option String :=
+  match args with
+  | op :: _ => if op.endsWith "ineq" then handleIneq args else handleEq args
+  | [] => none
+
+end driver
+
+end C04
+end QM
